@@ -7,6 +7,7 @@ import TapkeeVerif.Proofs.SpeLocal
 import TapkeeVerif.Proofs.SpeSeparate
 import TapkeeVerif.Proofs.SpeRun
 import TapkeeVerif.Proofs.SpeCentroid
+import TapkeeVerif.Proofs.SpeTotal
 import TapkeeVerif.Gen.SpeVariant
 import TapkeeVerif.Proofs.SpeAlgebra
 import TapkeeVerif.Proofs.RandProjLemmas
@@ -419,6 +420,84 @@ theorem spe_iteration_preserves_centroid {K : Type} [Field K] [DecidableEq K] [L
     (h : coordStep d Y dist sqrtO alpha tol lam ps = .ok Y') :
     Y'.size = Y.size ∧ ∀ c : Fin d, colSum d Y' c = colSum d Y c :=
   coordStep_centroid Y Y' dist sqrtO alpha tol lam ps h
+
+/-! ## SPE — the whole routine never leaves its arrays and never divides by zero -/
+
+theorem mem_pairs_bound {ps : List (Nat × Nat)} {n N : Nat} (hl : ps.length = n)
+    (h : ∀ j, j < n → ∃ a b, ps[j]? = some (a, b) ∧ a < N ∧ b < N) : ∀ p ∈ ps, p.1 < N ∧ p.2 < N := by
+  intro p hp
+  obtain ⟨j, hj⟩ := List.getElem?_of_mem hp
+  have hjl : j < ps.length := by
+    by_contra hc
+    rw [List.getElem?_eq_none (Nat.le_of_not_lt hc)] at hj
+    cases hj
+  obtain ⟨a, b, hab, ha, hb⟩ := h j (hl ▸ hjl)
+  rw [hab] at hj
+  cases hj
+  exact ⟨ha, hb⟩
+
+/-- For EVERY shuffle stream and uniform stream, every `N`, `spe_num_updates`, iteration count, initial configuration
+    and distance callback, for both strategies and either shape of the local branch: with `tolerance > 0` (what
+    `validate()` enforces), a non-negative `sqrt`, valid neighbour lists and floor values in range (local strategy), and
+    `alpha` defined (global strategy: the maximum input distance is positive, or the tree guards the division —
+    `Gen.speAlphaZeroGuard`), the full model `Spe.run` returns a configuration: neither `Err.oob` (some vector —
+    `indices`, `ind1Neighbors`, `neighbors`, `partners`, the columns of `Y` — indexed out of range) nor `Err.divzero`
+    (`D + tolerance = 0`, vanishing maximum distance) is reachable. -/
+theorem spe_run_total {K : Type} [Field K] [LinearOrder K] [IsStrictOrderedRing K] (inp : Input K)
+    (hY : inp.y0.size = inp.N) (htol : 0 < inp.tol) (hsq : ∀ x, 0 ≤ inp.sqrtO x)
+    (hs : ∀ t, (inp.shuffle t).Perm (List.range inp.N))
+    (halpha : inp.global = true → inp.zeroGuard = true ∨ maxDist inp.N inp.dist ≠ 0)
+    (hlocal : inp.global = false → ∃ k, kOf false inp.nb = .ok k ∧ ValidNeighbors inp.nb inp.N k ∧
+      ∀ c, 0 ≤ floorPick inp k c ∧ floorPick inp k c < k) :
+    ∃ st, run inp = .ok st := by
+  cases hg : inp.global with
+  | true =>
+    have hk : kOf inp.global inp.nb = .ok 0 := by simp [kOf, hg]
+    obtain ⟨alpha, ha⟩ : ∃ alpha, alphaOf inp.zeroGuard inp.global inp.N inp.dist inp.sqrtO = .ok alpha := by
+      rcases halpha hg with h | h
+      · by_cases hm : maxDist inp.N inp.dist = 0
+        · exact ⟨0, by simp [alphaOf, hg, hm, h]⟩
+        · exact ⟨1 / maxDist inp.N inp.dist * inp.sqrtO ((2 : Nat) : K), by simp only [alphaOf, hg, if_true, hm, if_false]⟩
+      · exact ⟨1 / maxDist inp.N inp.dist * inp.sqrtO ((2 : Nat) : K), by simp only [alphaOf, hg, if_true, h, if_false]⟩
+    refine run_ok inp 0 alpha hk ha hY htol hsq ?_
+    intro t
+    obtain ⟨idx, ps, hst, hl, _, hp, _⟩ :=
+      spe_global_pairs_distinct inp.inPlace inp.nb 0 inp.N inp.nupReq inp.shuffle (floorPick inp 0) hs t
+    rw [hg]
+    exact ⟨idx, ps, hst, mem_pairs_bound hl fun j hj => ⟨_, _, (hp j hj).1, (hp j hj).2.1, (hp j hj).2.2.1⟩⟩
+  | false =>
+    obtain ⟨k, hk, hv, hfv⟩ := hlocal hg
+    have hk' : kOf inp.global inp.nb = .ok k := by rw [hg]; exact hk
+    have ha : alphaOf inp.zeroGuard inp.global inp.N inp.dist inp.sqrtO = .ok 1 := by simp [alphaOf, hg]
+    refine run_ok inp k 1 hk' ha hY htol hsq ?_
+    intro t
+    rw [hg]
+    cases hip : inp.inPlace with
+    | true =>
+      obtain ⟨idx, ps, hst, hl, _, _, hp⟩ :=
+        spe_indices_local_partial (nupReq := inp.nupReq) hv inp.shuffle hs (floorPick inp k) hfv t
+      exact ⟨idx, ps, hst, mem_pairs_bound hl fun j hj => ⟨_, _, (hp j hj).1, (hp j hj).2.1, (hp j hj).2.2.1⟩⟩
+    | false =>
+      obtain ⟨idx, ps, hst, _, hl, hp, _⟩ :=
+        spe_indices_perm_local_separate.2 inp.nb inp.N k inp.nupReq inp.shuffle (floorPick inp k) hv hs hfv t
+      refine ⟨idx, ps, hst, mem_pairs_bound hl fun j hj => ?_⟩
+      obtain ⟨b, hb1, _, hb3, hb4, _⟩ := hp j hj
+      exact ⟨_, b, hb1, hb3, hb4⟩
+
+/-- the unguarded `alpha = 1.0 / max * sqrt(2.0)` divides by zero when all samples coincide (finding F-SPE-ZERODIST):
+    two coinciding points already reach `Err.divzero` (in the code: `inf`, then `inf * 0 = nan` in every coordinate);
+    with the guard `alpha` is always defined -/
+theorem spe_alpha_zero_distances :
+    alphaOf (K := Rat) false true 2 (fun _ _ => 0) (fun _ => 0) = .error .divzero ∧
+    ∀ (N : Nat) (dist : Nat → Nat → Rat) (sqrtO : Rat → Rat) (g : Bool), ∃ a, alphaOf true g N dist sqrtO = .ok a := by
+  refine ⟨by decide, ?_⟩
+  intro N dist sqrtO g
+  cases g with
+  | false => exact ⟨1, by simp [alphaOf]⟩
+  | true =>
+    by_cases hm : maxDist N dist = 0
+    · exact ⟨0, by simp [alphaOf, hm]⟩
+    · exact ⟨1 / maxDist N dist * sqrtO ((2 : Nat) : Rat), by simp only [alphaOf, if_true, hm, if_false]⟩
 
 /-! ## `defines/random.hpp` — the default random paths, `std::rand()` as an input stream -/
 section randomhpp
